@@ -18,7 +18,13 @@ import (
 	"golang.org/x/tools/go/ssa/ssautil"
 )
 
-const verifDir = "/verif"
+// verifDir is /verif ($VERIF_DIR: development copy of the machinery, never set by registered commands).
+var verifDir = func() string {
+	if v := os.Getenv("VERIF_DIR"); v != "" {
+		return v
+	}
+	return "/verif"
+}()
 
 // repoDir is /repo. $VERIF_REPO redirects the checks to another checkout and $VERIF_OUT their
 // scratch/evidence output elsewhere (development aid: the sensitivity matrix runs the checks
